@@ -188,6 +188,7 @@ where
         R_: Sealed<'de>,
         V: SeqAccess<'de>,
     {
+        let mut stored_column = None;
         if
         // SAFETY: `identifier_iter` is guaranteed by the safety contract of this method to
         // return a value for every component within the registry.
@@ -225,6 +226,7 @@ where
             })?);
             component_column.0 = v.as_mut_ptr().cast::<u8>();
             component_column.1 = v.capacity();
+            stored_column = Some(*component_column);
 
             components =
                 // SAFETY: `components` is guaranteed to have the same number of values as there
@@ -250,7 +252,7 @@ where
         // Furthermore, regardless of whether the bit was set or not, `R` is one component smaller
         // than `(C, R)`, and since `identifier_iter` has had one bit consumed, it still has the
         // same number of bits remaining as `R` has components remaining.
-        unsafe {
+        let result = unsafe {
             R::deserialize_components_by_row(
                 components,
                 length,
@@ -259,7 +261,21 @@ where
                 current_index + 1,
                 identifier,
             )
+        };
+        if result.is_err() {
+            if let Some((pointer, capacity)) = stored_column {
+                // The rest of the row could not be deserialized. The component of this row that
+                // was already stored is past the length the caller knows about, so it is dropped
+                // here rather than leaked.
+                let mut v = ManuallyDrop::new(
+                    // SAFETY: The pointer and capacity were written above from a valid `Vec<C>`
+                    // of length `length + 1`.
+                    unsafe { Vec::<C>::from_raw_parts(pointer.cast::<C>(), length + 1, capacity) },
+                );
+                drop(v.pop());
+            }
         }
+        result
     }
 
     unsafe fn expected_row_component_names<R_>(
